@@ -420,63 +420,68 @@ theorem ephem_iter_dates_range (fuel order : Nat) (pts : List Int) (first last :
   · have := loop_range_mem_down s1 st incl hs fuel s0 d hd
     exact interpOk_of hh hl hord (by omega) (by omega)
 
-/-- … (numerical propagator), forward `DateRange`: whatever its step and its start relative to the epoch -/
-theorem numerical_iter_dates_range_forward (fuel order m : Nat) (epoch h : Int) (a : Args) (s0 s1 st : Int) (incl listening : Bool)
-    (hd : a.dates = some (.range s0 s1 st incl)) (hs : 0 < st) (hfw : s0 ≤ s1) (hm : s1 ≤ s0 + (m : Int) * h)
+/-- … (numerical propagator, every integration method), forward `DateRange`: whatever its step and its start relative to the epoch -/
+theorem numerical_iter_dates_range_forward (fuel order m : Nat) (epoch h : Int) (rs : Nat → Int) (ident : Bool) (a : Args)
+    (s0 s1 st : Int) (incl listening : Bool)
+    (hd : a.dates = some (.range s0 s1 st incl)) (hs : 0 < st) (hfw : s0 ≤ s1) (hm : s1 ≤ endp rs 1 s0 m)
     (hmo : order ≤ m + 1) (hf : m < fuel) :
-    numIter fuel order epoch h a listening = (true, rangeRun fuel s0 s1 st incl) := by
+    numIter fuel order epoch h rs ident a listening = (true, rangeRun fuel s0 s1 st incl) := by
   unfold numIter
   simp only [hd]
-  obtain ⟨m', hreach, hord, hcore⟩ := numCore_forward fuel order h s0 s1 none (some (.range s0 s1 st incl)) listening m hfw hm hmo hf
+  obtain ⟨m', hreach, hord, hcore⟩ := numCore_forward fuel order h rs s0 s1 none (some (.range s0 s1 st incl)) listening m hfw hm hmo hf
   rw [hcore, ephemIter_dates]
   congr 1
   simp only [Dates.run, rangeRun]
   apply loop_ok_of_yes
   intro d hd'
   have := loop_range_mem_up s1 st incl hs fuel s0 d hd'
-  exact interpOk_of (grid_head _ _ _) (grid_getLast _ _ _) (by rw [grid_length]; exact hord (by simp)) this.1 (by omega)
+  exact interpOk_of (path_head _ _ _ _) (path_getLast _ _ _ _) (by rw [path_length]; exact hord (by simp)) this.1 (by omega)
 
 /-- … backward `DateRange` (negative step, stop before start): integrated backward, same dates -/
-theorem numerical_iter_dates_range_backward (fuel order m : Nat) (epoch h : Int) (a : Args) (s0 s1 st : Int) (incl listening : Bool)
-    (hd : a.dates = some (.range s0 s1 st incl)) (hs : st < 0) (hbw : s1 < s0) (hm : s0 + (m : Int) * (-h) ≤ s1)
+theorem numerical_iter_dates_range_backward (fuel order m : Nat) (epoch h : Int) (rs : Nat → Int) (ident : Bool) (a : Args)
+    (s0 s1 st : Int) (incl listening : Bool)
+    (hd : a.dates = some (.range s0 s1 st incl)) (hs : st < 0) (hbw : s1 < s0) (hm : endp (sdelta true rs) 1 s0 m ≤ s1)
     (hmo : order ≤ m + 1) (hf : m < fuel) :
-    numIter fuel order epoch h a listening = (true, rangeRun fuel s0 s1 st incl) := by
+    numIter fuel order epoch h rs ident a listening = (true, rangeRun fuel s0 s1 st incl) := by
   unfold numIter
   simp only [hd]
-  obtain ⟨m', hreach, hord, hcore⟩ := numCore_backward_dates fuel order h s0 s1 (.range s0 s1 st incl) listening m hbw hm hmo hf
+  obtain ⟨m', hreach, hord, hcore⟩ := numCore_backward_dates fuel order h rs s0 s1 (.range s0 s1 st incl) listening m hbw hm hmo hf
   rw [hcore, ephemIter_dates]
   congr 1
   simp only [Dates.run, rangeRun]
   apply loop_ok_of_yes
   intro d hd'
   have := loop_range_mem_down s1 st incl hs fuel s0 d hd'
-  refine interpOk_of (first := s0 + (m' : Int) * (-h)) (last := s0) ?_ ?_ ?_ (by omega) this.2
-  · rw [List.head?_reverse, grid_getLast]
-  · rw [List.getLast?_reverse, grid_head]
-  · rw [List.length_reverse, grid_length]; exact hord
+  refine interpOk_of (first := endp (sdelta true rs) 1 s0 m') (last := s0) ?_ ?_ ?_ (by omega) this.2
+  · rw [List.head?_reverse, path_getLast]
+  · rw [List.getLast?_reverse, path_head]
+  · rw [List.length_reverse, path_length]; exact hord
 
-example : numIter 20 8 0 60 { dates := some (.range 100 (-100) (-45) true) } false = (true, ⟨[100, 55, 10, -35, -80], .done⟩) := by decide
-example : numIter 20 8 0 60 { dates := some (.range 0 90 30 false) } false = (true, ⟨[0, 30, 60], .done⟩) := by decide
+example : numIter 20 8 0 60 (fun _ => 60) true { dates := some (.range 100 (-100) (-45) true) } false = (true, ⟨[100, 55, 10, -35, -80], .done⟩) := by decide
+example : numIter 20 8 0 60 (fun _ => 60) true { dates := some (.range 0 90 30 false) } false = (true, ⟨[0, 30, 60], .done⟩) := by decide
 example : rangeRun 20 100 (-100) (-45) true = ⟨grid 100 (-45) 4, .done⟩ :=
   rangeRun_inclusive_backward 20 4 100 (-100) (-45) (by decide) (by decide) (by decide) (by decide)
 
 /-! ## NumericalPropagator.iter / KeplerNum._iter
 
-`h > 0` is the integration step (`propagator.step`), `m` ANY number of integration steps that reach stop and fill the
-interpolation order (it only says that `fuel`, the bound on the length of the model's loops, suffices: the code has no bound). -/
+`h > 0` is the nominal step (`propagator.step`), `rs len` the LENGTH of the integration step actually taken when `len` points are
+tabulated: `h` for euler / rk4, whatever the step-size control arrives at for rkf54 / dopri54 (any function: the theorems
+quantify over it). `m` is ANY number of integration steps that reach stop and fill the interpolation order (it only says that
+`fuel`, the bound on the length of the model's loops, suffices: the code has no bound). `ident = true`: `_iter` recognises the
+default step by IDENTITY (`step is self.step`), as read from the source on this run (`step_test_matches`). -/
 
-/-- step of the iteration after defaulting: `step=` absent or `None` means the integration step of the propagator -/
+/-- step of the iteration after defaulting: `step=` absent or `None` means the nominal step of the propagator -/
 def stepOf (h : Int) (a : Args) : Int := (a.step.getD (some h)).getD h
 
 /-- `NumericalPropagator.iter` with `stop`, without `dates`, `start` not passed as `None`: the call of `KeplerNum._iter` it ends in -/
-theorem numIter_eq_numCore (fuel order : Nat) (epoch h : Int) (a : Args) (st : Stop) (listening : Bool)
+theorem numIter_eq_numCore (fuel order : Nat) (epoch h : Int) (rs : Nat → Int) (ident : Bool) (a : Args) (st : Stop) (listening : Bool)
     (hd : a.dates = none) (hst : a.stop = some st) (hstart : a.start ≠ some none) :
-    numIter fuel order epoch h a listening = numCore fuel order h (startOf epoch a) (st.resolve (startOf epoch a))
+    numIter fuel order epoch h rs ident a listening = numCore fuel order h rs (startOf epoch a) (st.resolve (startOf epoch a))
       (if startOf epoch a > st.resolve (startOf epoch a) ∧ stepOf h a > 0 then some (-stepOf h a) else
         match a.step with
         | none => none
         | some none => none
-        | some (some s) => some s) none listening := by
+        | some (some s) => if a.stepSame || (!ident && s == h) then none else some s) none listening := by
   unfold numIter startOf stepOf
   simp only [hd, hst]
   cases hs' : a.start with
@@ -486,74 +491,105 @@ theorem numIter_eq_numCore (fuel order : Nat) (epoch h : Int) (a : Args) (st : S
     | none => exact absurd hs' hstart
     | some x => rfl
 
-/-- **numerical_iter_dates**, forward. For every epoch, every start (before/at/after the epoch), every stop (date or timedelta)
-not before start — on the integration grid or not, any span however short —, every positive step (given, absent or `None`),
-with or without listeners: exactly `start + k·step`, `k = 0 … n = ⌊(stop−start)/step⌋`, in this order, none beyond stop. -/
-theorem numerical_iter_dates_forward (fuel order n m : Nat) (epoch h : Int) (a : Args) (st : Stop) (listening : Bool)
-    (hd : a.dates = none) (hst : a.stop = some st) (hstart : a.start ≠ some none) (hh : 0 < h) (hs : 0 < stepOf h a)
-    (h1 : startOf epoch a + (n : Int) * stepOf h a ≤ st.resolve (startOf epoch a))
-    (h2 : st.resolve (startOf epoch a) < startOf epoch a + ((n : Int) + 1) * stepOf h a)
-    (hm : st.resolve (startOf epoch a) ≤ startOf epoch a + (m : Int) * h) (hmo : order ≤ m + 1)
+/-- **numerical_iter_dates**, forward, explicit step. For every integration method (any step lengths `rs`), every epoch, every
+start (before/at/after the epoch), every stop (date or timedelta) not before start — on the integration grid or not, any span
+however short —, every positive `step=` given by the caller as an object of its own — smaller than, larger than,
+incommensurate with or EQUAL IN VALUE to the propagator's step —, with or without listeners: exactly `start + k·step`,
+`k = 0 … n = ⌊(stop−start)/step⌋`, in this order, none beyond stop. -/
+theorem numerical_iter_dates_forward (fuel order n m : Nat) (epoch h : Int) (rs : Nat → Int) (a : Args) (st : Stop) (step : Int)
+    (listening : Bool) (hd : a.dates = none) (hst : a.stop = some st) (hstart : a.start ≠ some none)
+    (hstep : a.step = some (some step)) (hown : a.stepSame = false) (hs : 0 < step)
+    (h1 : startOf epoch a + (n : Int) * step ≤ st.resolve (startOf epoch a))
+    (h2 : st.resolve (startOf epoch a) < startOf epoch a + ((n : Int) + 1) * step)
+    (hm : st.resolve (startOf epoch a) ≤ endp rs 1 (startOf epoch a) m) (hmo : order ≤ m + 1)
     (hf : m < fuel) (hf2 : n + 1 < fuel) :
-    numIter fuel order epoch h a listening = (true, ⟨grid (startOf epoch a) (stepOf h a) n, .done⟩) := by
-  have h0 : (0 : Int) ≤ (n : Int) * stepOf h a := Int.mul_nonneg (by exact_mod_cast Nat.zero_le n) (le_of_lt hs)
+    numIter fuel order epoch h rs true a listening = (true, ⟨grid (startOf epoch a) step n, .done⟩) := by
+  have h0 : (0 : Int) ≤ (n : Int) * step := Int.mul_nonneg (by exact_mod_cast Nat.zero_le n) (le_of_lt hs)
   have hfw : startOf epoch a ≤ st.resolve (startOf epoch a) := by omega
-  -- what `_iter` does with either form of `step`
-  have key : ∀ kstep : Option Int, (kstep = none ∧ stepOf h a = h) ∨ kstep = some (stepOf h a) →
-      numCore fuel order h (startOf epoch a) (st.resolve (startOf epoch a)) kstep none listening
-        = (true, ⟨grid (startOf epoch a) (stepOf h a) n, .done⟩) := by
-    intro kstep hk
-    obtain ⟨m', hreach, hord, hcore⟩ := numCore_forward fuel order h _ _ kstep none listening m hfw hm hmo hf
-    rw [hcore]
-    simp only [Option.isNone_none, if_true]
-    congr 1
-    rcases hk with ⟨rfl, hstep⟩ | rfl
-    · rw [ephemIter_own_up fuel order _ _ _ _ (grid_head _ _ _) (grid_getLast _ _ _) hreach, hstep]
-      rw [hstep] at h1 h2
-      have hnm : n ≤ m' := by
-        by_contra hc
-        have := cast_mul_mono (show m' + 1 ≤ n by omega) (le_of_lt hh)
-        push_cast at this
-        linarith
-      rw [ownPts_grid _ _ h hh m' _ n (le_refl _) hnm h1 h2]
-    · exact ephemIter_resample_up fuel order _ _ _ _ _ n (grid_head _ _ _) (grid_getLast _ _ _)
-        (by rw [grid_length]; exact hord (by simp)) hs hreach h1 h2 hf2
+  have hso : stepOf h a = step := by simp [stepOf, hstep]
   have hnf : ¬ (startOf epoch a > st.resolve (startOf epoch a) ∧ stepOf h a > 0) := by omega
-  rw [numIter_eq_numCore fuel order epoch h a st listening hd hst hstart, if_neg hnf]
-  unfold stepOf at key ⊢
-  cases hstep : a.step with
-  | none => simp only [hstep] at key ⊢; exact key none (Or.inl ⟨rfl, rfl⟩)
-  | some v =>
-    cases v with
-    | none => simp only [hstep] at key ⊢; exact key none (Or.inl ⟨rfl, rfl⟩)
-    | some s => simp only [hstep] at key ⊢; exact key (some s) (Or.inr rfl)
+  rw [numIter_eq_numCore fuel order epoch h rs true a st listening hd hst hstart, if_neg hnf]
+  simp only [hstep, hown, Bool.false_or, Bool.not_true, Bool.false_and, Bool.false_eq_true, if_false]
+  obtain ⟨m', hreach, hord, hcore⟩ := numCore_forward fuel order h rs _ _ (some step) none listening m hfw hm hmo hf
+  rw [hcore]
+  simp only [Option.isNone_none, if_true]
+  congr 1
+  exact ephemIter_resample_up fuel order _ _ _ _ _ n (path_head _ _ _ _) (path_getLast _ _ _ _)
+    (by rw [path_length]; exact hord (by simp)) hs hreach h1 h2 hf2
 
-/-- **numerical_iter_dates**, backward. Stop before start; the step may be absent (the integration step), given positive (the code
-flips it) or negative: exactly `start − k·|step|`, `k = 0 … n = ⌊(start−stop)/|step|⌋`, in this order, none beyond stop. -/
-theorem numerical_iter_dates_backward (fuel order n m : Nat) (epoch h : Int) (a : Args) (st : Stop) (listening : Bool)
-    (hd : a.dates = none) (hst : a.stop = some st) (hstart : a.start ≠ some none) (hh : 0 < h) (hs : stepOf h a ≠ 0)
+/- **numerical_iter_dates**, forward, DEFAULT step (`step=` absent, `None`, or `propagator.step` itself), full statement: for
+every integration method the dates are `start + k·h`, `k = 0 … ⌊(stop−start)/h⌋`.  FALSE of the current code for the adaptive
+methods (rkf54, dopri54): the raw integration points are yielded (`Witness/C08.lean: numerical_default_step_raw_points`; known
+finding C08-num-adaptive-default-step, proposed_fixes/C08-i-keplernum-adaptive-default-step.diff).  Proved for the fixed-step
+methods (`∀ k, rs k = h`): -/
+
+/-- `numerical_iter_dates_forward_default_partial`: default step, fixed-step methods (euler, rk4) -/
+theorem numerical_iter_dates_forward_default_partial (fuel order n m : Nat) (epoch h : Int) (rs : Nat → Int) (ident : Bool)
+    (a : Args) (st : Stop) (listening : Bool) (hd : a.dates = none) (hst : a.stop = some st) (hstart : a.start ≠ some none)
+    (hdef : a.step = none ∨ a.step = some none ∨ (a.step = some (some h) ∧ a.stepSame = true)) (hfix : ∀ k, rs k = h) (hh : 0 < h)
+    (h1 : startOf epoch a + (n : Int) * h ≤ st.resolve (startOf epoch a))
+    (h2 : st.resolve (startOf epoch a) < startOf epoch a + ((n : Int) + 1) * h)
+    (hm : st.resolve (startOf epoch a) ≤ startOf epoch a + (m : Int) * h) (hmo : order ≤ m + 1)
+    (hf : m < fuel) :
+    numIter fuel order epoch h rs ident a listening = (true, ⟨grid (startOf epoch a) h n, .done⟩) := by
+  have h0 : (0 : Int) ≤ (n : Int) * h := Int.mul_nonneg (by exact_mod_cast Nat.zero_le n) (le_of_lt hh)
+  have hfw : startOf epoch a ≤ st.resolve (startOf epoch a) := by omega
+  obtain rfl : rs = fun _ => h := funext hfix
+  have hso : stepOf h a = h := by
+    rcases hdef with e | e | ⟨e, _⟩ <;> simp [stepOf, e]
+  have hnf : ¬ (startOf epoch a > st.resolve (startOf epoch a) ∧ stepOf h a > 0) := by omega
+  rw [numIter_eq_numCore fuel order epoch h _ ident a st listening hd hst hstart, if_neg hnf]
+  have hk : (match a.step with
+      | none => none
+      | some none => none
+      | some (some s) => if a.stepSame || (!ident && s == h) then none else some s) = (none : Option Int) := by
+    rcases hdef with e | e | ⟨e, e'⟩
+    · simp [e]
+    · simp [e]
+    · simp [e, e']
+  rw [hk]
+  obtain ⟨m', hreach, hord, hcore⟩ := numCore_forward fuel order h (fun _ => h) _ _ none none listening m hfw
+    (by rw [endp_const]; exact hm) hmo hf
+  rw [hcore]
+  simp only [Option.isNone_none, if_true]
+  congr 1
+  rw [path_const, endp_const] at *
+  rw [ephemIter_own_up fuel order _ _ _ _ (grid_head _ _ _) (grid_getLast _ _ _) hreach]
+  have hnm : n ≤ m' := by
+    by_contra hc
+    have := cast_mul_mono (show m' + 1 ≤ n by omega) (le_of_lt hh)
+    push_cast at this
+    linarith
+  rw [ownPts_grid _ _ h hh m' _ n (le_refl _) hnm h1 h2]
+
+/-- **numerical_iter_dates**, backward. Every integration method; stop before start; the step may be absent (the nominal step), given
+positive (the code flips it) or negative: exactly `start − k·|step|`, `k = 0 … n = ⌊(start−stop)/|step|⌋`, in this order, none
+beyond stop. -/
+theorem numerical_iter_dates_backward (fuel order n m : Nat) (epoch h : Int) (rs : Nat → Int) (ident : Bool) (a : Args) (st : Stop)
+    (listening : Bool) (hd : a.dates = none) (hst : a.stop = some st) (hstart : a.start ≠ some none) (hh : 0 < h)
+    (hs : stepOf h a ≠ 0) (hsame : a.stepSame = true → a.step = some (some h))
     (hlt : st.resolve (startOf epoch a) < startOf epoch a)
     (h1 : st.resolve (startOf epoch a) ≤ startOf epoch a + (n : Int) * (-|stepOf h a|))
     (h2 : startOf epoch a + ((n : Int) + 1) * (-|stepOf h a|) < st.resolve (startOf epoch a))
-    (hm : startOf epoch a + (m : Int) * (-h) ≤ st.resolve (startOf epoch a)) (hmo : order ≤ m + 1)
+    (hm : endp (sdelta true rs) 1 (startOf epoch a) m ≤ st.resolve (startOf epoch a)) (hmo : order ≤ m + 1)
     (hf : m < fuel) (hf2 : n + 1 < fuel) :
-    numIter fuel order epoch h a listening = (true, ⟨grid (startOf epoch a) (-|stepOf h a|) n, .done⟩) := by
+    numIter fuel order epoch h rs ident a listening = (true, ⟨grid (startOf epoch a) (-|stepOf h a|) n, .done⟩) := by
   have hneg : -|stepOf h a| < 0 := by have := abs_pos.mpr hs; omega
-  have key : numCore fuel order h (startOf epoch a) (st.resolve (startOf epoch a)) (some (-|stepOf h a|)) none listening
+  have key : numCore fuel order h rs (startOf epoch a) (st.resolve (startOf epoch a)) (some (-|stepOf h a|)) none listening
         = (true, ⟨grid (startOf epoch a) (-|stepOf h a|) n, .done⟩) := by
-    obtain ⟨m', hreach, hord, hcore⟩ := numCore_backward fuel order h _ _ (-|stepOf h a|) listening m hlt hneg hm hmo hf
+    obtain ⟨m', hreach, hord, hcore⟩ := numCore_backward fuel order h rs _ _ (-|stepOf h a|) listening m hlt hneg hm hmo hf
     rw [hcore, ephemIter_dates]
     congr 1
     simp only [Dates.run, rangeCond_down hneg]
     apply loop_down _ _ _ _ n fuel hneg h1 h2 _ hf2
     intro k hk
     have hw := grid_within_backward hneg h1 (mem_grid.mpr ⟨k, hk, rfl⟩)
-    refine interpOk_of (first := startOf epoch a + (m' : Int) * (-h)) (last := startOf epoch a) ?_ ?_ ?_ (by omega) (by omega)
-    · rw [List.head?_reverse, grid_getLast]
-    · rw [List.getLast?_reverse, grid_head]
-    · rw [List.length_reverse, grid_length]; exact hord
+    refine interpOk_of (first := endp (sdelta true rs) 1 (startOf epoch a) m') (last := startOf epoch a) ?_ ?_ ?_ (by omega) (by omega)
+    · rw [List.head?_reverse, path_getLast]
+    · rw [List.getLast?_reverse, path_head]
+    · rw [List.length_reverse, path_length]; exact hord
   -- the step `_iter` receives: flipped when positive, as given when negative
-  rw [numIter_eq_numCore fuel order epoch h a st listening hd hst hstart]
+  rw [numIter_eq_numCore fuel order epoch h rs ident a st listening hd hst hstart]
   rcases lt_or_gt_of_ne hs with hn | hp
   · have hnf : ¬ (startOf epoch a > st.resolve (startOf epoch a) ∧ stepOf h a > 0) := by omega
     rw [if_neg hnf]
@@ -564,31 +600,49 @@ theorem numerical_iter_dates_backward (fuel order n m : Nat) (epoch h : Int) (a 
     | some v =>
       cases v with
       | none => simp [hstep] at hn; omega
-      | some s => simp only [hstep, Option.getD_some] at key ⊢; exact key
+      | some s =>
+        simp only [hstep, Option.getD_some] at hn key ⊢
+        have hns : a.stepSame = false := by
+          cases hss : a.stepSame with
+          | false => rfl
+          | true =>
+            have := hsame hss
+            rw [hstep] at this
+            simp only [Option.some.injEq] at this
+            omega
+        have hne : (s == h) = false := by simp; omega
+        simp only [hns, hne, Bool.false_or, Bool.and_false, Bool.false_eq_true, if_false]
+        exact key
   · rw [if_pos ⟨hlt, hp⟩]
     rw [abs_of_pos hp] at key ⊢
     exact key
 
 -- start at the epoch, stop 90 s later, integration step 60 s, no `step`: nothing beyond stop
-example : numIter 20 8 0 60 { stop := some (.at 90) } false = (true, ⟨[0, 60], .done⟩) := by decide
--- a span of 200 s (4 integration points < order 8) resampled at 30 s
-example : numIter 20 8 0 60 { stop := some (.at 200), step := some (some 45) } false = (true, ⟨[0, 45, 90, 135, 180], .done⟩) := by decide
+example : numIter 20 8 0 60 (fun _ => 60) true { stop := some (.at 90) } false = (true, ⟨[0, 60], .done⟩) := by decide
+-- a span of 200 s (4 integration points < order 8) resampled at 45 s
+example : numIter 20 8 0 60 (fun _ => 60) true { stop := some (.at 200), step := some (some 45) } false = (true, ⟨[0, 45, 90, 135, 180], .done⟩) := by decide
+-- an adaptive method taking steps of 33 s; the caller asks for one point per 60 s, the value of the propagator's own step
+example : numIter 20 8 0 60 (fun _ => 33) true { stop := some (.at 200), step := some (some 60) } false = (true, ⟨[0, 60, 120, 180], .done⟩) := by decide
 -- backward, start before the epoch, step given positive
-example : numIter 20 8 0 60 { start := some (some (-30)), stop := some (.delta (-200)), step := some (some 45) } true
+example : numIter 20 8 0 60 (fun _ => 60) true { start := some (some (-30)), stop := some (.delta (-200)), step := some (some 45) } true
     = (true, ⟨[-30, -75, -120, -165, -210], .done⟩) := by decide
--- the hypotheses of the two theorems are satisfiable (m = 7 integration steps: 420 s ≥ 200 s and 8 points)
-example : numIter 20 8 0 60 { stop := some (.at 200), step := some (some 45) } false = (true, ⟨grid 0 45 4, .done⟩) :=
-  numerical_iter_dates_forward 20 8 4 7 0 60 _ (.at 200) false rfl rfl (by decide) (by decide) (by decide) (by decide) (by decide)
+-- the hypotheses of the theorems are satisfiable (m = 7 integration steps of 33 s: 231 s ≥ 200 s and 8 points)
+example : numIter 20 8 0 60 (fun _ => 33) true { stop := some (.at 200), step := some (some 60) } false = (true, ⟨grid 0 60 3, .done⟩) :=
+  numerical_iter_dates_forward 20 8 3 7 0 60 _ _ (.at 200) 60 false rfl rfl (by decide) rfl rfl (by decide) (by decide) (by decide)
     (by decide) (by decide) (by decide) (by decide)
-example : numIter 20 8 0 60 { stop := some (.delta (-200)) } false = (true, ⟨grid 0 (-60) 3, .done⟩) :=
-  numerical_iter_dates_backward 20 8 3 7 0 60 _ (.delta (-200)) false rfl rfl (by decide) (by decide) (by decide) (by decide)
+example : numIter 20 8 0 60 (fun _ => 60) true { stop := some (.at 200) } false = (true, ⟨grid 0 60 3, .done⟩) :=
+  numerical_iter_dates_forward_default_partial 20 8 3 7 0 60 _ true _ (.at 200) false rfl rfl (by decide) (Or.inl rfl) (fun _ => rfl)
     (by decide) (by decide) (by decide) (by decide) (by decide) (by decide)
+example : numIter 20 8 0 60 (fun _ => 33) true { stop := some (.delta (-200)) } false = (true, ⟨grid 0 (-60) 3, .done⟩) :=
+  numerical_iter_dates_backward 20 8 3 7 0 60 _ true _ (.delta (-200)) false rfl rfl (by decide) (by decide) (by decide) (by decide)
+    (by decide) (by decide) (by decide) (by decide) (by decide) (by decide) (by decide)
 
-/-- **iter_dates_list** (numerical propagator): an explicit list — any order, repetitions, dates before or after the epoch,
-of any length — is yielded as it is; nothing for the empty list. `m` integration steps cover the span of the list. -/
-theorem numerical_iter_dates_list (fuel order m : Nat) (epoch h : Int) (a : Args) (l : List Int) (listening : Bool)
-    (hd : a.dates = some (.list l)) (hspan : ∀ x ∈ l, ∀ y ∈ l, y ≤ x + (m : Int) * h) (hmo : order ≤ m + 1) (hf : m < fuel) :
-    (numIter fuel order epoch h a listening).2 = ⟨l, .done⟩ := by
+/-- **iter_dates_list** (numerical propagator, every integration method): an explicit list — any order, repetitions, dates before
+or after the epoch, of any length — is yielded as it is; nothing for the empty list. `m` integration steps cover the span of the list. -/
+theorem numerical_iter_dates_list (fuel order m : Nat) (epoch h : Int) (rs : Nat → Int) (ident : Bool) (a : Args) (l : List Int)
+    (listening : Bool) (hd : a.dates = some (.list l)) (hspan : ∀ x ∈ l, ∀ y ∈ l, y ≤ endp rs 1 x m) (hmo : order ≤ m + 1)
+    (hf : m < fuel) :
+    (numIter fuel order epoch h rs ident a listening).2 = ⟨l, .done⟩ := by
   unfold numIter
   cases l with
   | nil => simp only [hd]
@@ -596,17 +650,17 @@ theorem numerical_iter_dates_list (fuel order m : Nat) (epoch h : Int) (a : Args
     simp only [hd]
     have hlo := listMin_le d r
     have hhi := le_listMax d r
-    obtain ⟨m', hreach, hord, hcore⟩ := numCore_forward fuel order h (listMin d r) (listMax d r) none (some (.list (d :: r))) listening m
+    obtain ⟨m', hreach, hord, hcore⟩ := numCore_forward fuel order h rs (listMin d r) (listMax d r) none (some (.list (d :: r))) listening m
       (by have := hlo d (by simp); have := hhi d (by simp); omega) (hspan _ (listMin_mem d r) _ (listMax_mem d r)) hmo hf
     rw [hcore, ephemIter_dates]
     simp only [Dates.run]
     apply listRun_all
     intro x hx
-    exact interpOk_of (grid_head _ _ _) (grid_getLast _ _ _) (by rw [grid_length]; exact hord (by simp))
+    exact interpOk_of (path_head _ _ _ _) (path_getLast _ _ _ _) (by rw [path_length]; exact hord (by simp))
       (hlo x hx) (by have := hhi x hx; omega)
 
-example : numIter 20 8 0 60 { dates := some (.list [100, -30, 100, 45]) } false = (true, ⟨[100, -30, 100, 45], .done⟩) := by decide
-example : numIter 20 8 0 60 { dates := some (.list []) } false = (false, ⟨[], .done⟩) := by decide
+example : numIter 20 8 0 60 (fun _ => 60) true { dates := some (.list [100, -30, 100, 45]) } false = (true, ⟨[100, -30, 100, 45], .done⟩) := by decide
+example : numIter 20 8 0 60 (fun _ => 60) true { dates := some (.list []) } false = (false, ⟨[], .done⟩) := by decide
 
 /-! ## independence from call history -/
 
@@ -879,6 +933,12 @@ theorem ident_table_matches (k : Kind) : Generated.orbitSetterKeepsObject.lookup
 
 /-- the interpolation order the numerical iterator pads to is `Ephem.DEFAULT_ORDER` of the source -/
 theorem order_matches : ({ kind := .num, store := fun i _ => i, sameState := fun _ _ => true, epoch := fun _ => 0 } : World Nat).order = Generated.ephemDefaultOrder := by
+  decide
+
+/-- `KeplerNum._iter` recognises the default step by identity (`if step is self.step: step = None`), not by value: the explicit
+`step=` of `numerical_iter_dates_forward` may have any value, the propagator's own included -/
+theorem step_test_matches : ({ kind := .num, store := fun i _ => i, sameState := fun _ _ => true, epoch := fun _ => 0 } : World Nat).stepIdent
+    = Generated.numStepTestIsIdentity := by
   decide
 
 end BeyondVerif.C08
